@@ -60,7 +60,8 @@ def _val(rng, kind, k):
 
 
 def gen_attrs(rng):
-    pool = [None, True, False, 'text', 'None', 7, -3, 2.5, 1e-3, '']
+    # numbers equal to a bool (0, 1, 0.0, 1.0) must stay numbers: only the objects None / True / False are rewritten
+    pool = [None, True, False, 'text', 'None', 7, -3, 2.5, 1e-3, '', 0, 1, 0.0, 1.0]
     return [['k%d' % i, rng.choice(pool)] for i in range(rng.choice([0, 1, 2, 3, 4]))]
 
 
@@ -131,7 +132,8 @@ def cases(ctx):
     for eng in ENGINES:                      # boundary: every name spelling with a small dataset carrying every attribute type
         for nm in names_for(eng):
             c = gen_case(rng, eng, nm)
-            c['ds']['attrs'] = [['a', None], ['b', True], ['c', False], ['d', 'x'], ['e', 3], ['f', 2.5]]
+            c['ds']['attrs'] = [['a', None], ['b', True], ['c', False], ['d', 'x'], ['e', 3], ['f', 2.5],
+                                ['g', 1], ['h', 0], ['i', 1.0], ['j', 0.0]]
             out.append(c)
     for eng in ENGINES:                      # partially-NaN complex values and signed zeros survive by bit pattern (no merge)
         c = gen_case(rng, eng, 'cplx')
@@ -139,6 +141,12 @@ def cases(ctx):
                    'vars': [{'name': 'v0', 'kind': 'complex', 'dims': ['d0'], 'shape': [3], 'vals': [[1.0, 'nan'], ['nan', -0.0], [-0.0, 0.0]]}]}
         c['ds2'] = None
         out.append(c)
+    # the same name rule through a Harvester: own engine x engine given per call x name spelling
+    for own in ENGINES:
+        for call in [None] + ENGINES:
+            for nm in ['hv', 'hv' + dsutil.EXT[call or own]]:
+                out.append({'hv': True, 'engine': call or own, 'own': own, 'call': call, 'name': nm,
+                            'ds': {'dims': [], 'vars': [], 'attrs': []}, 'ds2': None, 'chunks': None, 'policy': None})
     for _ in range(150 if ctx.tier == 'quick' else 2000):
         out.append(gen_case(rng))
     for c in out:
@@ -155,6 +163,7 @@ def search_cases(ctx):
 
 
 def nontrivial(c):
+    if c.get('hv'): return True
     return bool(c['ds']['dims']) and (bool(c['ds']['attrs']) or not c['name'].endswith(dsutil.EXT[c['engine']]))
 
 
@@ -196,8 +205,38 @@ def _same(a, b):
     return a == b
 
 
+def _run_hv(c):
+    """save / load / new session / delete through a Harvester: which files exist after each step"""
+    import xyzpy as xyz
+    d = common.fresh_dir('c14hv')
+    try:
+        path = os.path.join(d, c['name'])
+        kw = {'engine': c['call']} if c['call'] else {}
+        obs = {}
+        try:
+            with common.quiet():
+                h = xyz.Harvester(xyz.Runner(lambda a: a * 1.0, var_names='x'), path, engine=c['own'])
+                h.harvest_combos({'a': [1, 2]}, verbosity=0, **kw)
+                obs['ls_save'] = dsutil.listing(d)
+                back = xyz.load_ds(path, engine=c['engine'])
+                obs['loaded_a'] = sorted(back['a'].values.tolist())
+                h2 = xyz.Harvester(xyz.Runner(lambda a: a * 1.0, var_names='x'), path, engine=c['engine'])
+                h2.harvest_combos({'a': [3]}, verbosity=0)
+                obs['ls_second'] = dsutil.listing(d)
+                obs['second_a'] = sorted(h2.full_ds['a'].values.tolist())
+                h2.delete_ds()
+                obs['ls_delete'] = dsutil.listing(d)
+        except Exception as e:
+            obs['err'] = {'stage': 'harvester', 'class': type(e).__name__, 'msg': str(e)[:200]}
+            obs['ls_err'] = dsutil.listing(d)
+        return obs
+    finally:
+        common.rm(d)
+
+
 def run_real(c, ctx):
     import numpy as np, xarray as xr, xyzpy as xyz
+    if c.get('hv'): return _run_hv(c)
     d = common.fresh_dir('c14')
     eng, name = c['engine'], c['name']
     path = os.path.join(d, name)
@@ -264,6 +303,7 @@ def _tiny(dsd):
 
 
 def model_request(c, obs):
+    if c.get('hv'): return None
     ops = [{'op': 'save', 'name': c['name'], 'N': _tiny(c['ds'])}, {'op': 'load', 'name': c['name']}]
     if c['ds2'] is not None:
         ops += [{'op': 'save_merge', 'name': c['name'], 'N': _tiny(c['ds2']), 'policy': c['policy']}, {'op': 'load', 'name': c['name']}]
@@ -312,6 +352,14 @@ def _bits_to_py(b):
 
 def oracle(c, obs):
     if 'harness_exc' in obs: return None
+    if c.get('hv'):
+        if 'err' in obs: return f'Harvester(own engine {c["own"]}, call engine {c["call"]}, name {c["name"]}) raised {obs["err"]["class"]}: {obs["err"]["msg"]} (files {obs.get("ls_err")})'
+        want = [dsutil.documented_path(c['name'], c['engine'])]
+        if list(obs['ls_save']) != want: return f'saving through a Harvester (own {c["own"]}, call {c["call"]}) wrote {list(obs["ls_save"])}, the documented name is {want}'
+        if obs['loaded_a'] != [1, 2]: return 'load_ds by the same name and engine did not give the data back'
+        if list(obs['ls_second']) != want or obs['second_a'] != [1, 2, 3]: return f'a new session did not continue from the saved file: files {list(obs["ls_second"])}, a={obs["second_a"]}'
+        if list(obs['ls_delete']): return f'delete_ds left {list(obs["ls_delete"])}'
+        return None
     eng, name = c['engine'], c['name']
     if 'err' in obs:
         return f'{obs["err"]["stage"]} raised {obs["err"]["class"]}: {obs["err"]["msg"]} (files: {obs.get("ls_err")})'
